@@ -2218,6 +2218,73 @@ def eval_namespace_views(repo, run, rule):
         run.ok(rule, fi, 'evaluated code sees the config through ctx.ecfg (ayns.cfg and the globals wrapper), with the evaluating context')
 
 
+def deepcopy_keeps_inherited_flags(repo, run, rule):
+    """a deep copy of a container node, evaluated for a list node and a mapping node whose child recorded an inherited delete flag
+    that differs from what the container's *current* explicit flag would hand down (the state of a tree after a merge changed the
+    container's flags): the copy of the child keeps what the original recorded, and the copy of the container has the original's
+    state. Evaluated through ComposedNode.__deepcopy__ when the class has one, otherwise through the protocol copy.deepcopy applies to
+    __reduce__: rebuild, restore the state, then re-attach the items through append / item assignment."""
+    bad = []
+    rows = 0
+    for cls in ('ConfigList', 'ConfigDict'):
+        for stale in (True, False):
+            child = node_obj('child', 'ConfigList', _children={}, _implicit_delete=stale)
+            key = 0 if cls == 'ConfigList' else 'k'
+            me = node_obj('orig', cls, _children={key: child}, _delete=(not stale), _fde_storage=True)
+            copies = {}
+
+            def dc(x, memo=None, copies=copies):
+                if isinstance(x, Obj):
+                    if id(x) not in copies:
+                        c = Obj(x.name + '-copy', x.cls)
+                        c.f = dict(x.f)
+                        c.missing = set(x.missing)
+                        copies[id(x)] = c
+                    return copies[id(x)]
+                return dict(x) if isinstance(x, dict) else x
+            new = Obj('new', cls, _children={}, _fde_storage=True)
+            new.missing = set(k for k in node_obj('x', cls).f if k != '_children')
+            f = FDE(repo, stubs={'_recreate'}, stub=lambda n, r_, a, k, new=new: new)
+            f.extcalls = {'copy.deepcopy': dc, 'deepcopy': dc, 'dir': lambda *a: []}
+            t = repo.resolve(cls, '__deepcopy__')
+            rows += 1
+
+            def go():
+                if t is not None:
+                    return f.call(t, me, {})
+                # the generic protocol: y = _recreate(cls); y.__setstate__(deepcopy(state)); then y.append(item) / y[key] = value
+                st = f.call(repo.resolve(cls, '__getstate__'), me)
+                if st.raised:
+                    return st
+                r1 = f.call(repo.resolve(cls, '__setstate__'), new, dc(st.ret))
+                if r1.raised:
+                    return r1
+                if cls == 'ConfigList':
+                    r2 = f.call(repo.resolve(cls, 'append'), new, dc(child))
+                else:
+                    r2 = f.call(repo.resolve(cls, '__setitem__'), new, key, dc(child))
+                r2.ret = new
+                return r2
+            r = fde_guard(go)
+            how = 'ComposedNode.__deepcopy__' if t is not None else 'the __reduce__ protocol of copy.deepcopy (state restored, then children re-attached)'
+            what = 'deep copy of a %s with explicit delete=%r whose child recorded inherited delete=%r, through %s' % ('list node' if cls == 'ConfigList' else 'mapping node', not stale, stale, how)
+            if r.raised or r.ret is not new:
+                bad.append('%s: %s' % (what, 'raises ' + str(r.raised) if r.raised else 'does not return the rebuilt object'))
+                continue
+            cc = copies.get(id(child))
+            if cc is None or new.f.get('_children', {}).get(key) is not cc:
+                bad.append('%s: the copy does not hold the copy of the child' % what)
+            elif cc.f.get('_implicit_delete') is not stale:
+                bad.append('%s: the copy of the child records inherited delete=%r - re-derived from the container\'s current flags instead of copied: the copy merges differently from the original when it is used as a later stage' % (what, cc.f.get('_implicit_delete')))
+            elif new.f.get('_delete') is not (not stale) or '_delete' in new.missing:
+                bad.append('%s: the state of the container is not restored on the copy' % what)
+    run.table(rule, rows, 'container kind x stale inherited flag of the child')
+    if bad:
+        run.violation(rule, repo.func('ComposedNode.__reduce__'), 'deep copy of a merged tree', bad[0] + (' [%d rows]' % len(bad) if len(bad) > 1 else ''), witness=bad[:4])
+    else:
+        run.ok(rule, repo.func('ComposedNode.__reduce__'), 'deep copy keeps what the children recorded (%d rows)' % rows, 'children attached before the state is restored / flags copied, not re-derived')
+
+
 def tag_spec(repo, run, rule, tags):
     """the constructor registered for each of the given tags builds the node class the tag stands for, with the documented data
     handling (which argument receives the YAML value, whether scalars are parsed, whether a mapping is the data or the arguments) - and
